@@ -206,10 +206,16 @@ impl TransformerContext {
             let translate_y = el.get_attr("y");
             if translate_x.is_some() || translate_y.is_some() {
                 if let Some(ref mut bbox) = &mut el_bbox {
-                    el_bbox = Some(bbox.translated(
-                        translate_x.map(|tx| strp(&tx)).unwrap_or(Ok(0.))?,
-                        translate_y.map(|ty| strp(&ty)).unwrap_or(Ok(0.))?,
-                    ));
+                    // a position given as a percentage or with a unit is passed through;
+                    // where that is in user units is not known
+                    let offset = |v: Option<String>| match v {
+                        Some(v) => strp(&v).ok(),
+                        None => Some(0.),
+                    };
+                    el_bbox = match (offset(translate_x), offset(translate_y)) {
+                        (Some(tx), Some(ty)) => Some(bbox.translated(tx, ty)),
+                        _ => None,
+                    };
                 }
             }
         }
